@@ -146,10 +146,12 @@ func prime() {
 	b = append(b, wrr(wname("ns", "stale", "example"), 1, 1, 300, []byte{192, 0, 2, 99})...)
 	b = append(b, wrr(wname(), 41, 1232, 0x8000, []byte{0, 3, 0, 5, 'S', 'T', 'A', 'L', 'E'})...)
 	m := new(dns.Msg)
-	if err := m.Unpack(b); err != nil {
+	in := clone(b)
+	if err := m.Unpack(in); err != nil {
 		wire.Stderr("harness: the priming message does not unpack (%v): decoding is checked without a past", err)
 		return
 	}
+	scribble(in)
 	p, _ := L.ProjectMsg(m, nil)
 	primeBytes, primeHeld, primeCanon = b, m, wire.Canon(p)
 }
@@ -170,6 +172,17 @@ func usedReceiver() *dns.Msg {
 		_ = m.Unpack(primeBytes)
 	}
 	return m
+}
+
+// The caller owns the buffer a message was decoded from and will use it again (next read, PackBuffer, buffer pool):
+// the decoded Msg must not depend on it.  Every decoding below is from a private copy that is scribbled over
+// right afterwards, before the result is compared or packed again.
+func clone(b []byte) []byte { return append([]byte(nil), b...) }
+
+func scribble(b []byte) {
+	for i := range b {
+		b[i] ^= 0xff
+	}
 }
 
 func filled(n int, fill byte) []byte {
@@ -337,7 +350,8 @@ func one(v *vec, sum *hx.Summary) {
 
 	// 2. unpacking the prescribed octets gives back the message: every header bit, count and field
 	u := new(dns.Msg)
-	if err := u.Unpack(exp); err != nil {
+	in := clone(exp)
+	if err := u.Unpack(in); err != nil {
 		mis("wire/unpack-error:"+key, fmt.Sprintf("Unpack(spec octets): %v", err))
 		return
 	}
@@ -345,10 +359,21 @@ func one(v *vec, sum *hx.Summary) {
 	if k, what := diffMsg(proj, want, inex != ""); k != "" {
 		mis("wire/unpack-fields:"+k, "Unpack(spec octets): "+what)
 	}
+	// 2a. ... and keeps reading so when the caller re-uses the buffer it was decoded from
+	scribble(in)
+	aliased := false
+	if after, _ := L.ProjectMsg(u, want); wire.Canon(after) != wire.Canon(proj) {
+		aliased = true
+		k, what := diffMsg(after, proj, false)
+		if k == "" {
+			k = key
+		}
+		mis("wire/unpack-aliases-input:"+k, "the unpacked message changed when the input buffer was overwritten: "+what)
+	}
 
 	// 2b. the same into a receiver that decoded another, rich message before; and what was decoded earlier stays as it was
 	u2 := usedReceiver()
-	if err := u2.Unpack(exp); err != nil {
+	if err := u2.Unpack(clone(exp)); err != nil {
 		mis("wire/unpack-reused-error:"+key, fmt.Sprintf("Unpack(spec octets) into a Msg used before: %v", err))
 	} else {
 		proj2, _ := L.ProjectMsg(u2, want)
@@ -363,7 +388,9 @@ func one(v *vec, sum *hx.Summary) {
 	}
 
 	// 3. conversely: packing what was unpacked reproduces the octets
-	if re, err := u.Pack(); err != nil {
+	if aliased {
+		// the message no longer is what was decoded: one defect, one key
+	} else if re, err := u.Pack(); err != nil {
 		mis("wire/repack-error:"+key, fmt.Sprintf("Unpack(spec octets).Pack(): %v", err))
 	} else if !bytes.Equal(re, exp) {
 		mis("wire/repack-octets:"+keyAt(v, re, exp), fmt.Sprintf("Unpack(spec octets).Pack() = %.300x, spec %.300x", re, exp))
@@ -405,7 +432,9 @@ func one(v *vec, sum *hx.Summary) {
 				}
 			}
 		}
-		rr, off, err := dns.UnpackRR(exp, v.Rroff[i])
+		in3 := clone(exp)
+		rr, off, err := dns.UnpackRR(in3, v.Rroff[i])
+		scribble(in3)
 		if err != nil {
 			sum.Mis("wire/unpackrr-error:"+k, fmt.Sprintf("UnpackRR at %d: %v", v.Rroff[i], err), small(v))
 			continue
@@ -445,6 +474,9 @@ type event struct {
 	// the message decoded at start-up and held since is unchanged
 	ReusedSame bool `json:"reusedsame"`
 	HeldSame   bool `json:"heldsame"`
+	// msg2 is read once more after the buffer it was decoded from was overwritten: still the same;
+	// the re-pack happens after that, on the Msg as the caller keeps it
+	InputFree bool `json:"inputfree"`
 }
 
 func emptyMsg() *wire.Msg { return &wire.Msg{Q: []wire.Q{}, An: []wire.RR{}, Ns: []wire.RR{}, Ar: []wire.RR{}} }
@@ -480,13 +512,17 @@ func observe(a *wire.Msg, sum *hx.Summary) event {
 		}
 		e.RRSame = e.RRSame && bytes.HasSuffix(b, cat)
 		u := new(dns.Msg)
-		if u.Unpack(b) != nil {
+		in := clone(b)
+		if u.Unpack(in) != nil {
 			return
 		}
 		e.Unpacked = true
 		e.Msg2, _ = L.ProjectMsg(u, a)
+		scribble(in)
+		after, _ := L.ProjectMsg(u, a)
+		e.InputFree = wire.Canon(after) == wire.Canon(e.Msg2)
 		u2 := usedReceiver()
-		if u2.Unpack(b) == nil {
+		if u2.Unpack(clone(b)) == nil {
 			p2, _ := L.ProjectMsg(u2, a)
 			e.ReusedSame = wire.Canon(p2) == wire.Canon(e.Msg2)
 		}
